@@ -524,7 +524,7 @@ Proof.
   - cbn [in_ids mem] in Hin. unfold in_ids in Hin. cbn [mem] in Hin. rewrite orb_false_r in Hin.
     pose proof (beq_true _ _ Hin) as E. fold sec_main in E. subst id.
     destruct (table_get sec_main) as [nxt|]; [|discriminate]. exists nxt. split; [reflexivity|].
-    right; left. repeat split; auto. rewrite E in Hd. congruence.
+    right; left. repeat split; auto; try congruence.
   - pose proof (follows _ _ _ Hk Hin) as F. unfold follows_ok in F.
     destruct (table_get id) as [nxt|]; [|discriminate]. exists nxt. split; [reflexivity|].
     cbn [andb] in F. destruct (is_content id) eqn:C.
@@ -533,6 +533,6 @@ Proof.
     + right; right. rewrite !andb_true_iff, negb_true_iff, Nat.leb_le in F.
       destruct F as [[F1 F2] F3]. unfold depth. rewrite C.
       repeat split; auto; try lia.
-      * intros E. apply beq_true in E. fold sec_change in E. subst id. rewrite E in Hd. congruence.
-      * intros _ E. apply beq_true in E. fold sec_file in E. subst id. rewrite E in Hd. congruence.
+      * intros E. apply beq_true in E. fold sec_change in E. subst id. congruence.
+      * intros _ E. apply beq_true in E. fold sec_file in E. subst id. congruence.
 Qed.
